@@ -28,6 +28,8 @@ CLAIM = dict(
          "the whole output, the law of a whole run of basic_discrete_SIR (one fresh coin per tested contact) equals the law of flipping one coin per arc first and then running the "
          "deterministic simulator (= BFS generations of the percolated digraph), in both return modes; total mass 1 (both modes); final size = out-component of I0 in the percolated digraph; "
          "percolation_based_discrete_SIR (one coin per undirected edge) and basic_discrete_SIR agree in law on every event of the rows and node histories (both modes); basic_discrete_SIS = one coin per (step, arc). "
+         "Chain form (C12_chain_law, C12_sis_chain_law): the law of the sequence of generation sets of a whole run is that of the Reed-Frost / discrete-SIS Markov chain (product of the one-step factors) stopped by the loop condition. "
+         "Order independence (coq/Props/C12ord.v): with or without a recovery test and for basic_discrete_SIS, any two iteration orders of the Python sets give the same rows, the same node histories and the same transmissions up to the order of the entries of one step. "
          "Tie: extracted model vs /repo on the same contact tables, exhaustively over all Bernoulli outcomes on small graphs, plus draw-by-draw replay of the p-based functions.",
     design='DESIGN.md section 4, C12',
     technique='Coq proof (BFS characterisation by induction over generations, product law by induction over the contact list) + extracted-model/implementation correspondence + independent BFS oracle',
